@@ -66,6 +66,17 @@ def observe_code(code):
     buf = io.StringIO()
     ns = {'emit': lambda *a: (log.append(repr(a[0] if len(a) == 1 else a)), True)[1], '__name__': 'behaveprog'}
     ns['emit'].k = 0
+    import contextlib
+    import types
+
+    @contextlib.contextmanager
+    def ctx(v):
+        yield v
+    ns['emit'].ctx = ctx
+    # the scope programs spell some stores `import xx`: stand-in modules for the names they use
+    fake = [n for n in ('xx', 'yy', 'A', 'B') if n not in sys.modules]
+    for n in fake:
+        sys.modules[n] = types.ModuleType(n)
     old = sys.stdout
     sys.stdout = buf
     try:
@@ -78,6 +89,8 @@ def observe_code(code):
             exc = type(e).__name__
     finally:
         sys.stdout = old
+        for n in fake:
+            sys.modules.pop(n, None)
     pub = []
     for k in sorted(ns):
         if k.startswith('_') or k == 'emit':
